@@ -108,6 +108,8 @@ def ihex(data):
 
 class Impl:
     nested = None
+    failed_saves = 0
+    unfailed_saves = 0
 
     def __init__(self, cfg, scratch=None):
         import mysensors
@@ -115,7 +117,7 @@ class Impl:
         self.cfg = cfg
         self.log = []
         self.scratch = scratch or (BUILD / "scratch" / str(os.getpid()))
-        kwargs = {"protocol_version": cfg["ver"]}
+        kwargs = {"protocol_version": cfg.get("spell") or cfg["ver"]}
         if cfg.get("callback", True):
             kwargs["event_callback"] = self._callback
         if cfg.get("persist"):
@@ -208,6 +210,38 @@ class Impl:
                     with mock.patch.object(os, "rename", rename):
                         self._guard(gw.tasks.persistence.save_sensors)
                 if not fired:                       # nothing to save (flag clear / no persistence)
+                    run_inner(inner)
+            elif kind == "save_fail_during":
+                # A periodic save that fails inside the serialiser: pickle reaches the desired-state table
+                # (Sensor.new_state) of a node, the inner op grows that table, pickle raises RuntimeError.
+                # Net effect demanded by the properties = the inner op alone, state still marked unsaved.
+                # Without such a table (or with JSON, which does not serialise it) no save is attempted.
+                from mysensors.sensor import ChildSensor
+                inner = tuple(o[1])
+                run_inner = getattr(self, "nested", None) or self.op
+                pers = gw.tasks.persistence
+                targets = {id(ch) for nd in gw.sensors.values() for ch in nd.new_state.values()
+                           if len(nd.new_state) >= 2 and set(nd.children) - set(nd.new_state)}
+                fired = []
+                if pers and pers.need_save and targets and str(self.cfg.get("persist", "")).endswith(".pickle"):
+                    def reduce_ex(obj, proto):
+                        if not fired and id(obj) in targets:
+                            fired.append(1)
+                            run_inner(inner)
+                        return object.__reduce_ex__(obj, proto)
+                    with mock.patch.object(ChildSensor, "__reduce_ex__", reduce_ex, create=True):
+                        try:
+                            pers.save_sensors()
+                            # the save unexpectedly went through (a snapshot torn by the inner op): keep the
+                            # state marked unsaved, as after the inner op alone, so that the run stays
+                            # comparable with the model; counted in the evidence
+                            pers.need_save = True
+                            self.unfailed_saves += 1
+                        except RuntimeError:        # the expected failure of the serialiser (the scheduler
+                            self.failed_saves += 1  # logs it and goes on: C15)
+                        except Exception as exc:    # anything else is an observation
+                            self.log.append(("R", exc_name(exc)))
+                if not fired:
                     run_inner(inner)
             elif kind == "restart":       # clean stop, new process, start_persistence
                 self._guard(self._restart)
@@ -304,7 +338,7 @@ def oracle_strings(ops):
     from mysensors.message import Message
     out = ["1.4"]
     for o in ops:
-        if o[0] == "save_during":
+        if o[0] in ("save_during", "save_fail_during"):
             o = tuple(o[1])
         if o[0] == "recv":
             try:
